@@ -42,5 +42,6 @@ RULE = (
     "Deferred fires no later than issue+timeout (or the longer minimum), success only with a completely delivered reply, no delayed call for that deadline "
     "survives the reply, a late reply changes no Deferred, every call resolves once faults stop. non-trivial = a request that timed out while another call "
     "was answered, or a late reply released; distinct = distinct trace."
+    " Also: with disconnect_on_timeout the silent connection is dropped at every timeout (script 'timeout2': two timeouts in a row on one broker; 'noconn': a warm call, also acks=0, to a broker whose connection cannot be re-established); engine GRP traces: JoinGroup/SyncGroup/Heartbeat of the real Coordinator must not time out earlier than the timeout (35 s minimum for joins, measured from the call), must resolve by write time + that bound, and their silent connection must be dropped."
 )
 ASSUMPTIONS = ["the timing clause is evaluated for warm calls only; cold calls first resolve routing, which the property does not bound"]
